@@ -18,6 +18,7 @@ import contextlib
 import copy
 import io
 import itertools
+import re
 import json
 import logging
 
@@ -253,7 +254,7 @@ def gen_cases(rng, tier):
         cases.append({"kind": "norm", "via": "dict", "g": g})
     for _ in range(n_expand):
         g = g_formula(rng, rng.randint(1, 6), rng.randint(1, 10), rng.randint(1, 4))
-        cases.append({"kind": "expand", "g": g})
+        cases.append({"kind": "expand", "g": g, "stmt": "await"} if _ % 3 == 2 else {"kind": "expand", "g": g})
     for i in range(n_e2e):
         op = OPS[i % len(OPS)]
         n_atoms = rng.randint(1, 5)
@@ -314,6 +315,8 @@ def escalate(rng, focus, tier):
 # ----------------------------------------------------------------------------- implementation
 
 _M = {}
+_CH = {"log": [], "rng": None}
+STATUS_CODE = {"ACTIVE": 0, "MERGING": 1, "INACTIVE": 2}
 
 
 def worker_init():
@@ -324,6 +327,18 @@ def worker_init():
     from nemoguardrails.colang.v2_x.runtime.flows import InternalEvent, State
     from nemoguardrails.colang.v2_x.runtime.runtime import create_flow_configs_from_flow_list
 
+    import random as _random
+    import types as _types
+
+    def _choice(seq):
+        idx = _CH["rng"].randrange(len(seq))
+        _CH["log"].append(idx)
+        return seq[idx]
+
+    # tie-breaks of the interpreter (`random.choice` in MergeHeads / action conflicts) are drawn from a per-sequence
+    # seeded generator and recorded, so that the head-level model can be given the same outcomes
+    sm.random = _types.SimpleNamespace(choice=_choice)
+    _CH["rng"] = _random.Random(0)
     _M.update(parse=parse_colang_file, ast=colang_ast, ex=expansion, sm=sm, InternalEvent=InternalEvent, State=State, cfgs=create_flow_configs_from_flow_list)
 
 
@@ -370,6 +385,20 @@ def parse_group(op, g, kinds, minimal):
     return src, r["flows"], grp
 
 
+def _member_name(m):
+    return m.get("name") if isinstance(m, dict) else getattr(m, "name", None)
+
+
+def _start_args(sp):
+    """(flow index, instance uid variable) of the StartFlow / FlowStarted spec that `start f<i>` expands to"""
+    a = sp.arguments or {}
+    if set(a) != {"flow_id", "flow_instance_uid"}:
+        return None
+    m1 = re.fullmatch(r"'f(\d+)'", str(a["flow_id"]))
+    m2 = re.fullmatch(r"'\{\$(_instance_uid_\w+)\}'", str(a["flow_instance_uid"]))
+    return (int(m1.group(1)), m2.group(1)) if m1 and m2 else None
+
+
 def prims_to_json(elements):
     """expanded element list -> canonical primitive list (uuid-bearing names renamed by first appearance)"""
     A = _M["ast"]
@@ -386,11 +415,32 @@ def prims_to_json(elements):
     for e in elements:
         t = type(e).__name__
         if isinstance(e, A.SpecOp):
-            j = spec_to_json(e.spec)
+            sp = e.spec
+            j = spec_to_json(sp)
+            started = _start_args(sp) if isinstance(sp, A.Spec) else None
             if e.op == "match" and "a" in j:
                 out.append(["match", j["a"]])
+            elif e.op == "send" and started and sp.name == "StartFlow" and sp.ref is None:
+                out.append(["sendStart", started[0], nm(started[1])])
+            elif e.op == "match" and started and sp.name == "FlowStarted" and e.info.get("internal") is True and isinstance(sp.ref, dict):
+                out.append(["matchStarted", started[0], nm(started[1]), nm(sp.ref["elements"][0]["elements"][0])])
+            elif (e.op == "match" and isinstance(sp, A.Spec) and sp.spec_type == A.SpecType.REFERENCE and sp.var_name and not sp.arguments
+                  and sp.ref is None and e.return_var_name is None and isinstance(sp.members, list) and len(sp.members) == 1
+                  and _member_name(sp.members[0]) == "Finished"):
+                out.append(["matchFin", nm(sp.var_name)])
             else:
                 out.append(["other", f"{e.op}:{json.dumps(j)[:40]}"])
+        elif t == "Assignment":
+            m1 = re.fullmatch(r"'\(f(\d+)\)\{uid\(\)\}'", e.expression or "")
+            m2 = re.fullmatch(r"\$(_flow_event_ref_\w+)\.flow", e.expression or "")
+            if m1 and e.key.startswith("_instance_uid_"):
+                out.append(["assignUid", nm(e.key), int(m1.group(1))])
+            elif m2 and e.key.startswith("_ref_"):
+                out.append(["assignRef", nm(e.key), nm(m2.group(1))])
+            else:
+                out.append(["other", "assign"])
+        elif t in ("BeginScope", "EndScope"):
+            out.append(["beginScope" if t == "BeginScope" else "endScope", nm(e.name)])
         elif t == "Goto":
             out.append(["goto", nm(e.label)] if e.expression == "True" else ["other", "goto-if"])
         elif t == "ForkHead":
@@ -429,6 +479,18 @@ def canon_prims(prims):
         elif t == "fork":
             u = nm(p[1])
             out.append([t, u, [nm(l) for l in p[2]]])
+        elif t in ("matchFin", "beginScope", "endScope"):
+            out.append([t, nm(p[1])])
+        elif t == "assignUid":
+            out.append([t, nm(p[1]), p[2]])
+        elif t == "sendStart":
+            out.append([t, p[1], nm(p[2])])
+        elif t == "matchStarted":
+            v = nm(p[2])
+            out.append([t, p[1], v, nm(p[3])])
+        elif t == "assignRef":
+            r = nm(p[1])
+            out.append([t, r, nm(p[2])])
         else:
             out.append(list(p))
     return out
@@ -472,9 +534,11 @@ def run_expand(case):
     A = _M["ast"]
     obs = {}
     try:
-        grp = json_to_spec(g) if not renderable(g) else parse_group("match", g, kinds_for("match"), False)[2]
+        stmt = case.get("stmt", "match")
+        kind = "ev" if stmt == "match" else "flow"
+        grp = json_to_spec(g, kind) if not renderable(g) else parse_group(stmt, g, kinds_for(stmt), False)[2]
         obs["g_seen"] = spec_to_json(grp)
-        els = _M["ex"].expand_elements([A.SpecOp(op="match", spec=grp)], {})
+        els = _M["ex"].expand_elements([A.SpecOp(op=stmt, spec=grp)], {})
         obs["prims"] = prims_to_json(els)
     except Exception as e:  # noqa
         obs["exc"] = f"{type(e).__name__}: {e}"[:200]
@@ -494,13 +558,18 @@ def run_e2e(case):
             sm.run_to_completion(st, _M["InternalEvent"](name="StartFlow", arguments={"flow_id": "main"}))
         obs["start_out"] = sorted({e.get("type") for e in st.outgoing_events})
         obs["main_after_start"] = _main_status(st)
+        obs["heads_init"] = _heads(st)
     except Exception as e:  # noqa
         obs["build_exc"] = f"{type(e).__name__}: {e}"[:300]
         return obs
     runs = []
     for seq in case["seqs"]:
         s = copy.deepcopy(st)
-        hits, extra, exc, which = [], set(), None, []
+        hits, extra, exc, which, heads = [], set(), None, [], []
+        import random as _random
+
+        _CH["rng"] = _random.Random(json.dumps([case["g"], seq]))
+        _CH["log"] = []
         try:
             with _quiet():
                 for a in seq:
@@ -509,11 +578,22 @@ def run_e2e(case):
                     hits.append(len(got))
                     which.extend(got)
                     extra.update(e.get("type") for e in s.outgoing_events if e.get("type") not in ("Hit", "Hit2"))
+                    if case["op"] == "match":
+                        heads.append(_heads(s))
         except Exception as e:  # noqa
             exc = f"{type(e).__name__}: {e}"[:200]
-        runs.append({"hits": hits, "which": which, "extra": sorted(extra), "exc": exc, "main": _main_status(s)})
+        runs.append({"hits": hits, "which": which, "extra": sorted(extra), "exc": exc, "main": _main_status(s), "heads": heads, "choices": list(_CH["log"])})
     obs["runs"] = runs
     return obs
+
+
+def _heads(st):
+    """all heads of the main flow: [position relative to the first element of the group statement, status code]"""
+    try:
+        fs = st.flow_id_states["main"][-1]
+        return sorted([h.position - 1, STATUS_CODE.get(h.status.name, 9)] for h in fs.heads.values())
+    except Exception as e:  # noqa
+        return [["?", type(e).__name__]]
 
 
 def ev_name(a):
@@ -540,8 +620,12 @@ def model_requests(case, obs):
     if kind == "norm":
         return [{"m": "C07.normalize", "g": obs["g_seen"]}]
     if kind == "expand":
-        return [{"m": "C07.expand", "g": obs["g_seen"], "prims": obs.get("prims", [])}]
-    return [{"m": "C07.markers", "g": obs["g_seen"], "seqs": [finish_view(s) for s in case["seqs"]]}]
+        return [{"m": "C07.expandAwait" if case.get("stmt") == "await" else "C07.expand", "g": obs["g_seen"], "prims": obs.get("prims", [])}]
+    reqs = [{"m": "C07.markers", "g": obs["g_seen"], "seqs": [finish_view(s) for s in case["seqs"]]}]
+    if case["op"] == "match" and "runs" in obs:
+        # head-level machine with the tie-breaks the interpreter drew
+        reqs.append({"m": "C07.vm", "g": obs["g_seen"], "seqs": case["seqs"], "choices": [r["choices"] for r in obs["runs"]]})
+    return reqs
 
 
 def finish_view(seq):
@@ -592,6 +676,18 @@ def compare(case, obs, mouts):
         if not case["op"].endswith("f") and run["main"] != "STARTED":
             # model: after completion no head of the group is left, before completion the heads just wait
             return f"sequence {seq}: main flow ended in status {run['main']} (model: it keeps waiting on `match Never()`)"
+    if len(mouts) > 1:
+        v = mouts[1]
+        if not v["nonempty"]:
+            return None
+        if sorted(v["init"]) != obs.get("heads_init"):
+            return f"heads after the group statement was reached: implementation {obs.get('heads_init')}, head-level model {sorted(v['init'])}"
+        for seq, run, tr in zip(case["seqs"], obs["runs"], v["runs"]):
+            for k, (step, hreal) in enumerate(zip(tr, run["heads"])):
+                if (1 if step["m"] else 0) != run["hits"][k]:
+                    return f"sequence {seq} event {k}: head-level model marker {step['m']}, implementation hits {run['hits']} (tie-breaks {run['choices']})"
+                if sorted(step["heads"]) != hreal:
+                    return f"sequence {seq} event {k}: heads (position, status) implementation {hreal}, head-level model {sorted(step['heads'])} (tie-breaks {run['choices']})"
     return None
 
 
@@ -722,6 +818,8 @@ def tags(case, obs):
         cl = _clauses_of_norm(obs.get("norm")) if "norm" in obs else None
         if cl is not None:
             t.append(f"clauses:{min(len(cl), 16)}")
+    if case["kind"] == "expand":
+        t.append("stmt:" + case.get("stmt", "match"))
     if case["kind"] == "expand" and "prims" in obs:
         t.append(f"prims:{len(obs['prims']) // 10 * 10}+")
     if case["kind"] == "e2e":
